@@ -237,9 +237,16 @@ package node
 //@     || op == bytecode.LSH || op == bytecode.RSH
 //@ pred isOperatorStr(s string) bool := s == "+" || s == "-" || s == "*" || s == "/" || s == "%" || s == "&" || s == "&&" || s == "|" || s == "||" || s == "==" || s == "!="
 //@     || s == "<" || s == "<=" || s == ">" || s == ">=" || s == "<<" || s == ">>"
-//@ func (BinOp).byteCode [C05,C12] implements ByteCoder.byteCode
+// The documented operator table (Readme): which instruction computes which operator. The VM's binary
+// instructions compute `src1 op src0`, so the left operand is compiled into field 1, the right into field 0.
+//@ pred opFor(s string) bytecode.OpCode := ite(s == "+", bytecode.ADD, ite(s == "-", bytecode.SUB, ite(s == "*", bytecode.MUL, ite(s == "/", bytecode.DIV, ite(s == "%", bytecode.MOD,
+//@     ite(s == "&" || s == "&&", bytecode.AND, ite(s == "|" || s == "||", bytecode.OR, ite(s == "==", bytecode.EQ, ite(s == "!=", bytecode.NE, ite(s == "<", bytecode.LT,
+//@     ite(s == "<=", bytecode.LE, ite(s == ">", bytecode.GT, ite(s == ">=", bytecode.GE, ite(s == "<<", bytecode.LSH, bytecode.RSH))))))))))))))
+//@ func (BinOp).byteCode [C05,C12,C01,C11] implements ByteCoder.byteCode
 //@   assumes[unfold] exprOK(b.Left) && exprOK(b.Right) && isOperatorStr(b.Op)
-//@   cut switch.done 0 havoc op invariant isOperatorOpc(op)
+//@   cut switch.done 0 havoc op invariant isOperatorOpc(op) && op == opFor(b.Op)
+//@   atcall b.Left.byteCode with (callee_srcsel int) requires[left_is_src1;C01,C12,C11] callee_srcsel == 1
+//@   atcall b.Right.byteCode with (callee_srcsel int) requires[right_is_src0;C01,C12,C11] callee_srcsel == 0
 //@ func (UnOp).byteCode [C05,C12] implements ByteCoder.byteCode
 //@   assumes[unfold] exprOK(u.Target) && (u.Op == "-" || u.Op == "#" || u.Op == "!" || u.Op == "~")
 //@   assumes[fold]   wfAST(BinOp{Op: "*", Left: Int(-1), Right: u.Target})   // negation is compiled as (-1) * target: a well-formed product of two expressions
